@@ -361,7 +361,7 @@ var guardSpec = []guardSpecEntry{
 	{"clientState.blocked", gAtomic, "", "capture state machine"},
 	{"clientState.unblockPending", gAtomic, "", "capture state machine"},
 	{"clientState.name", gConfined, "", "session state"},
-	{"clientState.user", gConfined, "", "session state"},
+	{"clientState.user", gImmutable, "", "assigned at construction (there is no AUTH); read by CLIENT LIST/KILL of other connections"},
 	{"clientState.cmdQueue", gConfined, "", "MULTI queue"},
 	{"clientState.watches", gConfined, "", "WATCH set"},
 	{"clientState.respVersion", gConfined, "", "protocol version"},
